@@ -772,6 +772,83 @@ pub fn gen_program(rng: &mut Rng, optimize: bool, exotic: bool) -> (Project, Met
     (project, meta)
 }
 
+/// Template workload "pointer or NULL": a register holds a small constant of the NULL range on one path and a stack
+/// address on the other; after the join the program accesses memory through it. A run on the NULL path is aborted by
+/// the interpreter's guard (the analysis may assume it does not happen); a run on the pointer path completes the access
+/// and must find the following blocks reachable for the analysis, with all values represented.
+pub fn gen_maybe_null_program(rng: &mut Rng, optimize: bool) -> (Project, Meta) {
+    let mut n = 0u32;
+    let mut t = |p: &str| -> Tid {
+        n += 1;
+        tid(&format!("{p}{n}"), &format!("{:04x}", 0x2000 + n * 4))
+    };
+    let frame = *rng.pick(&[0x20i64, 0x30, 0x40]);
+    let k = *rng.pick(&[0i64, 8, 16, 24]);
+    let nullish = *rng.pick(&[0i64, 0, 0, 8, -8, 1, 1000]);
+    let preg = *rng.pick(&["RAX", "RBX", "RCX", "RDX"]);
+    let creg = *rng.pick(&["RDI", "RSI", "R8"]);
+    let cmp_const = *rng.pick(&[0i64, 1, 5, -1]);
+    let cmp = *rng.pick(&[BinOpType::IntEqual, BinOpType::IntNotEqual, BinOpType::IntSLess, BinOpType::IntLess]);
+    let b: Vec<Tid> = (0..4).map(|i| tid(&format!("blk_n{i}"), &format!("n{i:02}"))).collect();
+    // b0
+    let mut d0 = vec![assign(t("d"), reg("RSP"), e_bin(BinOpType::IntSub, e_reg("RSP"), e_const(frame, 8)))];
+    let via_slot = rng.chance(1, 3);
+    let pslot = (-frame + 32 - 8, 8u32); // slot that may hold the pointer
+    d0.push(assign(t("d"), reg(preg), e_const(nullish, 8)));
+    if via_slot {
+        d0.push(store(t("d"), e_reg_off("RSP", 24), e_reg(preg)));
+    }
+    let cond = e_bin(cmp, e_reg(creg), e_const(cmp_const, 8));
+    let (t1, t2) = if rng.bool() { (b[1].clone(), b[2].clone()) } else { (b[2].clone(), b[1].clone()) };
+    let cond = if t1 == b[1] { cond } else { e_un(UnOpType::BoolNegate, cond) };
+    let j0 = vec![jmp(t("j"), Jmp::CBranch { target: b[1].clone(), condition: cond }), jmp(t("j"), Jmp::Branch(b[2].clone()))];
+    let _ = (t1, t2);
+    // b1: pointer path
+    let mut d1 = vec![assign(t("d"), reg(preg), e_reg_off("RSP", k))];
+    if via_slot {
+        d1.push(store(t("d"), e_reg_off("RSP", 24), e_reg(preg)));
+    }
+    let j1 = vec![jmp(t("j"), Jmp::Branch(b[2].clone()))];
+    // b2: join + access
+    let mut d2 = Vec::new();
+    if via_slot {
+        d2.push(load(t("d"), reg(preg), e_reg_off("RSP", 24)));
+    }
+    let other = *rng.pick(&["R9", "R10", "R11"]);
+    match rng.below(3) {
+        0 => d2.push(store(t("d"), e_reg(preg), e_const(rng.range_i64(1, 100), 8))),
+        1 => d2.push(load(t("d"), reg(other), e_reg(preg))),
+        _ => {
+            d2.push(store(t("d"), e_reg(preg), e_reg(creg)));
+            d2.push(load(t("d"), reg(other), e_reg(preg)));
+        }
+    }
+    d2.push(assign(t("d"), reg("R12"), e_const(1, 8)));
+    let j2 = vec![jmp(t("j"), Jmp::Branch(b[3].clone()))];
+    // b3: epilogue
+    let rv = tmp("$Uretn", 8);
+    let d3 = vec![
+        assign(t("d"), reg("R13"), e_bin(BinOpType::IntAdd, e_reg("R12"), e_const(1, 8))),
+        assign(t("d"), reg("RSP"), e_bin(BinOpType::IntAdd, e_reg("RSP"), e_const(frame, 8))),
+        load(t("d"), rv.clone(), e_reg("RSP")),
+        assign(t("d"), reg("RSP"), e_bin(BinOpType::IntAdd, e_reg("RSP"), e_const(8, 8))),
+    ];
+    let j3 = vec![jmp(t("j"), Jmp::Return(e_var(&rv)))];
+    let f = sub(tid("sub_f", "f000"), "f", vec![blk(b[0].clone(), d0, j0), blk(b[1].clone(), d1, j1), blk(b[2].clone(), d2, j2), blk(b[3].clone(), d3, j3)]);
+    let mut slots = vec![(-frame + k, 8u32)];
+    if via_slot && !slots.contains(&pslot) {
+        slots.push((-frame + 24, 8));
+    }
+    let meta = Meta { consts: vec![cmp_const, nullish, 1], slots, optimized: optimize };
+    let entry = f.tid.clone();
+    let mut project = project_x64(program(vec![f], vec![], Some(entry)));
+    let _ = project.normalize_basic();
+    if optimize {
+        let _ = project.normalize_optimize();
+    }
+    (project, meta)
+}
+
 // ---------------------------------------------------------------------------------------------
 // Running the analysis and extracting what it claims
 
@@ -1160,13 +1237,34 @@ pub const KNOWN_MIXED_IDS: &str = "c13-intersection-of-values-relative-to-differ
 
 /// The same program with every branch condition whose variables are relative to two or more different
 /// identifiers replaced by an opaque flag (a register the program never writes and the analysis knows nothing about).
+/// A comparison whose two operands are plain variables (possibly cast / sub-pieced / negated as a whole).
+/// On such conditions the recorded defect (arithmetic on a value relative to one identifier is propagated into an
+/// operand relative to another identifier and then intersected) has no arithmetic to decompose; a wrong verdict there
+/// is a different defect and must not hide behind the known finding.
+fn is_bare_comparison(e: &Expression) -> bool {
+    fn simple(e: &Expression) -> bool {
+        match e {
+            Expression::Var(_) | Expression::Const(_) => true,
+            Expression::Cast { arg, .. } | Expression::Subpiece { arg, .. } => simple(arg),
+            _ => false,
+        }
+    }
+    match e {
+        Expression::UnOp { op: UnOpType::BoolNegate, arg } => is_bare_comparison(arg),
+        Expression::BinOp { op, lhs, rhs } if CMP_OPS.contains(op) => simple(lhs) && simple(rhs),
+        _ => false,
+    }
+}
+
 fn opaque_variant(project: &Project, cond_ids: &BTreeMap<Tid, usize>) -> Project {
     let mut p = project.clone();
     for sub in p.program.term.subs.values_mut() {
         for b in sub.term.blocks.iter_mut() {
             if cond_ids.get(&b.tid).copied().unwrap_or(0) >= 2 {
                 if let Some(Term { term: Jmp::CBranch { condition, .. }, .. }) = b.term.jmps.first_mut() {
-                    *condition = Expression::Var(var("PF", 1));
+                    if !is_bare_comparison(condition) {
+                        *condition = Expression::Var(var("PF", 1));
+                    }
                 }
             }
         }
@@ -1288,6 +1386,15 @@ fn run(cfg: &Cfg) -> Report {
             check_program(&project, &meta, state_seed, n_states, max_blocks, rep);
             if idx < 3 && i == 0 {
                 rep.sample(json!({"program": show_program(&project.program.term), "meta": meta.to_json(), "state_seed": state_seed, "initial_states": n_states}));
+            }
+        }
+        // template workload: pointer-or-NULL register dereferenced after a join
+        for i in 0..2usize {
+            if let Ok((project, meta)) = guard(|| gen_maybe_null_program(rng, (idx + i) % 2 == 0)) {
+                let state_seed = rng.next_u64();
+                observe_program(&project, &meta, rep);
+                check_program(&project, &meta, state_seed, n_states.min(128), max_blocks, rep);
+                rep.obs("workload:pointer-or-null-template");
             }
         }
     })
